@@ -65,9 +65,14 @@ def main(tier, seed):
     rng = lib.rng_for(seed, PID)
     n_prog = 120 if tier == 'quick' else 2500
     terms, metas = [], []
-    for it in range(n_prog):
-        rational = it % 3 == 0
-        prog = progs.gen_prog(rng, ap, nout=rng.choice([1, 1, 2]), rational=rational, traced_pow=not rational)
+    kernel = progs.kernel_programs(rng, ap, reps=1 if tier == 'quick' else 6)
+    for it in range(n_prog + len(kernel)):
+        rational = it % 3 == 0 and it < n_prog
+        if it < n_prog:
+            prog = progs.gen_prog(rng, ap, nout=rng.choice([1, 1, 2]), rational=rational, traced_pow=(it % 3 == 2), focus='linalg' if it % 3 == 1 else None)
+        else:
+            prog = kernel[it - n_prog][1]          # every traced operation the generator knows, whatever the random composition picked
+            rep.count('kernel program', kernel[it - n_prog][0])
         N = prog['N']
         rec_kind = rng.choice(['ndarray', 'UTPM'])
         x_rec, rmeta = make_input(ap, rng, N, rec_kind)
